@@ -13,9 +13,43 @@ from urllib.parse import quote as _quote
 
 import lib
 
+_Y = "Ural.Props.C19.Youtube."
+_G = "Ural.Props.C19.Google."
 THEOREMS = [
+    # ural/youtube.py
+    _Y + "parse_youtube_url_total",
+    _Y + "extract_video_id_total",
+    _Y + "normalize_youtube_url_total",
+    _Y + "record_valid",
+    _Y + "extract_video_id_valid",
+    _Y + "reparse_url_partial",
+    _Y + "reparse_short",
+    _Y + "reparse_video_without_playlist",
+    _Y + "fullReparse_false",
+    _Y + "normalize_unparsed_fixed",
+    _Y + "normalize_youtube_idempotent_partial",
+    _Y + "fullIdempotent_false",
+    _Y + "parse_eq_fuel",
+    "Ural.Youtube.reparse_of_good",
+    # ural/google.py
+    _G + "parse_google_drive_url_total",
+    _G + "extract_id_from_google_drive_url_total",
+    _G + "extract_id_spec",
+    _G + "record_valid",
+    _G + "reparse_url_public_link",
+    _G + "reparse_url_file_partial",
+    _G + "fullReparseFile_false",
 ]
 TABLE_OBLIGATIONS = [
+    _Y + "youtube_patterns_unchanged",
+    _Y + "youtube_templates_unchanged",
+    _Y + "roundtrip_obligations",
+    _Y + "youtube_domains_ordinary",
+    _Y + "youtube_com_listed",
+    _Y + "youtube_trie_knows_www",
+    _G + "google_patterns_unchanged",
+    _G + "google_url_builders_unchanged",
+    _G + "drive_types_plain",
 ]
 RULE = (
     "yt: corpus (every fixed C19 finding of youtube.py/google.py + the known findings' witnesses), then every path of 0-3 "
@@ -56,7 +90,17 @@ ASSUMPTIONS = [
     "re-parsing is judged on the URL ural itself builds: normalize_youtube_url(u) for youtube (fix_common_mistakes at its default "
     "True, as normalize_youtube_url calls the parser), record.url for google drive",
 ]
-UNPROVED = ""
+UNPROVED = (
+    "youtube: parse(canonical url of r) == r is proved on the region Good (reparse_url_partial): playlist ids without '?', '/', '%'; user "
+    "names / channel ids without '&', '%', '/', '?', '#', TAB/CR/LF and without trailing white space; channel names likewise (trailing "
+    "white space allowed) and not in YOUTUBE_CHANNEL_NAME_BLACKLIST; full for shorts and videos without playlist. Outside Good the statement "
+    "is FALSE (fullReparse_false, fullIdempotent_false; known findings KF-C19-YT-1 reserved name behind '@', KF-C19-YT-2 trailing blank, "
+    "KF-C19-YT-3 redirect hint inside a field); the remaining excluded shapes ('%' or '/' inside a playlist id, '%' inside a name) are "
+    "explored by the oracle on every run, no failure known. normalize_youtube_url idempotent: full on urls that do not parse, on Good "
+    "otherwise. google: reparse full for public links, for files under 'the id does not end with white space' (fullReparseFile_false: "
+    "KF-C19-YT-2). is_youtube_url / is_amp_url / is_google_link / extract_url_from_google_link / is_youtube_*_id: no raise site in the model "
+    "(total by construction), their agreement with the code is differential only."
+)
 
 ID = "dQw4w9WgXcQ"
 ID2 = "a_b-C0123xy"
